@@ -330,7 +330,7 @@ def handle (z : St) (args : List String) : Option (St × Proto.Out) :=
                sig := if sameSet m sp then "-" else
                  match firstDiff m sp with
                  | some n => if !s.live.contains n then "zm-find-nonlive-node"
-                             else if conds.any (fun kv => isNumV kv.2 && !(s.props.get n kv.1 == some kv.2)) then "zm-find-float-bits"
+                             else if conds.any (fun kv => isNumV kv.2 && (isNaNV kv.2 || !(s.props.get n kv.1 == some kv.2))) then "zm-find-float-bits"
                              else "zm-find-missed-live-node"
                  | none => "-" })
   | ["plan", k, op, v] => do
